@@ -39,3 +39,10 @@ Qed.
 Lemma reassembly_quadratic :
   bytes_okb w_honest_frags = true /\ datagram_steps demo_state w_honest_frags = 41 * 40.
 Proof. split; vm_compute; reflexivity. Qed.
+
+(* a consistent forged fragment announcing 65 535 000 bytes is reassembled into the 1000 bytes it
+   carries *)
+Lemma forged_frag_alloc :
+  bytes_okb w_forged_frag = true /\ len w_forged_frag = 1056 /\
+  datagram_alloc demo_state w_forged_frag = 1000 /\ is_ok (handle_datagram demo_state w_forged_frag) = true.
+Proof. repeat split; vm_compute; reflexivity. Qed.
